@@ -72,7 +72,24 @@ def chk_reverb_filters_nonempty(F):
                     return False, '%s sizes a filter with %s (no lower bound of one sample)' % (o.path, d[:100])
     if seen != set(ctors):
         return False, 'filter constructions not found (%s)' % sorted(seen)
-    return True, '%d filter constructions, all sized >= 1' % n
+    # ... and the index stays below the length: in each filter's process the last store to current_index, on every path,
+    # is `<something> % buffer.len()`
+    from .paths import describe_rv, pretty_place, parse_term
+    for fn in ('effect::reverb::comb::CombFilter::process', 'effect::reverb::all_pass::AllPassFilter::process'):
+        b = F.inlined_view(fn, depth=1, pred=lambda hp: hp.startswith(fn.rsplit('::', 1)[0] + '::'))
+        if b is None:
+            return False, '%s not found' % fn
+        st = [(bb, si, describe_rv(b, s2['rv'], depth=6, at=bb)) for bb, si, s2 in b.stmts()
+              if s2['k'] == 'assign' and s2['lhs']['p'] and pretty_place(b, s2['lhs']) == '(*self).current_index']
+        if not st:
+            return False, '%s never advances current_index' % fn
+        rpo = b.rpo_index()
+        last = max(st, key=lambda x: (rpo.get(x[0], x[0]) if isinstance(rpo, dict) else rpo[x[0]], x[1]))
+        nm, ar = parse_term(last[2])
+        if not (nm == 'Rem' and ar and len(ar) == 2 and 'len(' in ar[1] and '.buffer' in ar[1]
+                and all(b.dominates(last[0], r) for r in b.return_blocks())):
+            return False, '%s leaves current_index = %s: not reduced modulo buffer.len() on every path (the next index is out of bounds)' % (fn, last[2][:80])
+    return True, '%d filter constructions, all sized >= 1; indices wrapped modulo the length' % n
 
 
 def _strict_less(name, args):
@@ -174,6 +191,22 @@ def chk_loop_region_ordered(F):
     return True, '%d stores, all filtered' % len(stores)
 
 
+def chk_reverb_initialised(F):
+    """`<Reverb as Effect>::init` leaves the reverb Initialized on every path (so that the explicit "not initialised"
+    panic of process() is unreachable once B.C16.init has shown that every effect is init'ed before it reaches the audio
+    thread)."""
+    from .paths import describe_rv, pretty_place
+    b = F.inlined_view('<effect::reverb::Reverb as effect::Effect>::init', depth=2, pred=lambda hp: hp.startswith('effect::reverb::Reverb::'))
+    if b is None:
+        return False, 'Reverb::init not found'
+    st = [(bb, describe_rv(b, s['rv'], depth=2, at=bb)) for bb, si, s in b.stmts()
+          if s['k'] == 'assign' and s['lhs']['p'] and pretty_place(b, s['lhs']) == '(*self).state']
+    good = [bb for bb, d in st if 'ReverbState::Initialized' in d]
+    if not good or not any(all(b.dominates(x, r) for r in b.return_blocks()) for x in good):
+        return False, 'Reverb::init does not set state = Initialized on every path (stores: %s): process() would hit its "not initialised" panic' % [d[:50] for _, d in st]
+    return True, 'init => state = Initialized'
+
+
 def chk_scratch_sized_ibs(F):
     """Every scratch buffer is allocated with exactly internal_buffer_size frames (and Delay's only in init)."""
     from .props.c02 import scratch_allocations, SIZE_RE
@@ -190,6 +223,7 @@ CHECKS = {
     'scratch_sized_ibs': chk_scratch_sized_ibs,
     'delay_line_nonempty': chk_delay_line_nonempty,
     'reverb_filters_nonempty': chk_reverb_filters_nonempty,
+    'reverb_initialised': chk_reverb_initialised,
     'loop_region_ordered': chk_loop_region_ordered,
 }
 
